@@ -1,6 +1,6 @@
 """C12: non-sensitive text and line structure are conserved."""
 import itertools
-from . import ipgen, linegen, textgen
+from . import ipgen, ipref, linegen, textgen
 from .textcommon import TEXT_MODEL_DEPS as MODEL_DEPS, TEXT_TRUSTED as TRUSTED_BASE, TEXT_ASSUMPTIONS as ASSUMPTIONS  # noqa
 
 COQ_DEPS = ["lib/Str.v", "lib/Rx.v", "lib/RxFacts.v", "lib/RxSub.v", "gen/G_rx.v", "gen/G_text_consts.v", "model/TextModel.v", "model/TextProofs.v"]
@@ -38,7 +38,7 @@ def build_text(rng, n):
                 continue
         for _ in range(rng.randrange(0, 3)):
             kind = rng.choice("awn")
-            tok = {"a": rng.choice(linegen.V4_OK[:6] + linegen.V6_OK[:4]), "w": rng.choice(["seattle-core", "KAYAK1", "xseattlex"]), "n": rng.choice(ASNUMS)}[kind]
+            tok = {"a": rng.choice(linegen.V4_OK[:6] + linegen.V6_OK[:4] + linegen.V4_MASK), "w": rng.choice(["seattle-core", "KAYAK1", "xseattlex"]), "n": rng.choice(ASNUMS)}[kind]
             pos = rng.randrange(len(toks) + 1)
             toks.insert(pos, tok)
         line = linegen.mk_line(rng, toks, term=rng.choice(["\n"] * 6 + ["\r\n"]))
@@ -59,7 +59,7 @@ def lead_trail(s):
 
 def is_sensitive_token(tok, flags, words, asnums):
     low = tok.lower()
-    if "a" in flags and (linegen.v4_tokens(tok) or linegen.v6_tokens(tok)):
+    if "a" in flags and (any(not ipref.is_mask_ref(v) for _, _, v in linegen.v4_tokens(tok)) or linegen.v6_tokens(tok)):
         return True
     if words and any(w in low for w in words):
         return True
@@ -144,7 +144,7 @@ def run(ctx):
     ctx.evaluations = sum(len(c) - 11 for c in cases) + len(singles)
     ctx.distinct_nontrivial = nt
     ctx.search_stats = {"cases": len(cases), "feature_subsets": len(subsets), "lines": sum(len(c) - 11 for c in cases), "locality_probes": len(singles)}
-    ctx.samples = [{"features": metas[5][0], "line": cases[5][11], "impl": textgen.outlines(i[5])[0]}, {"features": metas[15][0], "line": cases[15][12], "impl": textgen.outlines(i[15])[1]}]
+    ctx.samples = [dict(textgen.sample(cases[5], i[5], 0), features=metas[5][0]), dict(textgen.sample(cases[15], i[15], 1), features=metas[15][0])]
 
 
 def re_ws(s):
